@@ -1,6 +1,7 @@
 package main
 
 import (
+	"os"
 	"fmt"
 	"go/ast"
 	"go/token"
@@ -412,6 +413,13 @@ func (c *FnCtx) specCtx(st *State) *SpecCtx {
 	env := copyEnv(c.env)
 	// locals visible by name (innermost wins is not tracked: names are assumed unique enough)
 	for obj, t := range st.vars {
+		if t.Cell {
+			// address-taken local: specs see its current value
+			if pt, ok := t.T.Underlying().(*types.Pointer); ok {
+				arr := c.heapGet(st, "P:"+typeShortName(pt.Elem()), arraySort(sV, c.e.d.sortOf(pt.Elem())))
+				t = Term{S: sSel(arr.S, t.S), Sort: arr.Sort.Elem, T: pt.Elem()}
+			}
+		}
 		if _, clash := env[obj.Name()]; !clash {
 			env[obj.Name()] = t
 		} else if v, ok := obj.(*types.Var); ok && c.captured[v] {
@@ -637,6 +645,9 @@ func (c *FnCtx) execRange(st *State, x *ast.RangeStmt) []Outcome {
 		c.assumeInvariant(st, invs, extra)
 		exitSt := st.clone()
 		exitSt.assume(fmt.Sprintf("(forall ((k %s)) (! (=> (select %s k) (select %s k)) :pattern ((select %s k))))", ks.SMT(), domAtEntry, seen.S, domAtEntry))
+		// seen ⊆ dom and dom ⊆ seen: the two sets are equal (stated as an equation so that functions of
+		// the set, e.g. its cardinality, agree without an extensionality argument)
+		exitSt.assume(sEq(seen.S, domAtEntry))
 		outs := []Outcome{{st: exitSt, kind: oNext}}
 		k := c.fresh(st, "rangekey", u.Key())
 		st.assume(sSel(domAtEntry, k.S))
@@ -784,6 +795,14 @@ func (c *FnCtx) collectMods(n ast.Node, ms *modSet, info *types.Info, depth int)
 			}
 		case *ast.UnaryExpr:
 			if y.Op == token.AND {
+				if id, ok := ast.Unparen(y.X).(*ast.Ident); ok {
+					if v, ok := info.ObjectOf(id).(*types.Var); ok && !v.IsField() {
+						if nn, _, isPtr := derefNamedStruct(v.Type()); nn == nil || isPtr || !d.modelled(nn) {
+							ms.alloc = true
+							ms.heap["P:"+typeShortName(v.Type())] = arraySort(sV, d.sortOf(v.Type()))
+						}
+					}
+				}
 				if _, ok := ast.Unparen(y.X).(*ast.CompositeLit); ok {
 					ms.alloc = true
 					// fields initialised by the literal
@@ -1340,9 +1359,10 @@ func (c *FnCtx) runDefers(o Outcome) []Outcome {
 	for len(o.st.defers) > 0 {
 		break
 	}
-	n := len(o.st.defers)
+	defs := append([]deferred(nil), o.st.defers...)
+	n := len(defs)
 	for i := n - 1; i >= 0; i-- {
-		df := o.st.defers[i]
+		df := defs[i]
 		var next []Outcome
 		for _, oc := range cur {
 			st := oc.st
@@ -1448,7 +1468,10 @@ func (c *FnCtx) useHints(st *State) []string {
 		func() {
 			defer func() {
 				if r := recover(); r != nil {
-					if _, ok := r.(toolError); ok {
+					if te, ok := r.(toolError); ok {
+						if os.Getenv("GSV_DEBUG_USE") != "" {
+							fmt.Fprintf(os.Stderr, "use %s skipped: %s\n", u.Name, string(te))
+						}
 						return // hint mentions a name not in scope at this point: skip
 					}
 					panic(r)
@@ -1458,7 +1481,15 @@ func (c *FnCtx) useHints(st *State) []string {
 			env := map[string]Term{}
 			for i, p := range lm.Params {
 				if i < len(u.Args) {
-					env[p.Name] = sc.eval(u.Args[i])
+					a := sc.eval(u.Args[i])
+					if p.Type != "" {
+						// the declared parameter type gives the argument its Go type (field access in the body)
+						gt := c.e.parseGhostType(p.Type, c.e.axPkg[lm], token.NoPos)
+						if gt.Kind == "go" && sameSort(c.e.ghostSort(gt), a.Sort) {
+							a.T = gt.Go
+						}
+					}
+					env[p.Name] = a
 				}
 			}
 			lsc := &SpecCtx{c: c, pkg: c.e.axPkg[lm], env: env, st: st, old: c.entry}
